@@ -191,6 +191,19 @@ Theorem wrapper_layers_pass_arguments_through :
   /\ space_multiply_call = (X1, X2, OUT) /\ space_divide_call = (X1, X2, OUT).
 Proof. exact calls_are_identity. Qed.
 
+(* operators called with plain DATA (ndarray, nested list / tuple) as the other operand: the code
+   wraps it, other = self.space.element(data), and re-dispatches; the dunder it re-dispatches to is
+   regenerated ([redispatch]).  For the current source it is the same operator, hence the program
+   run with a data operand IS the program run with the wrapped element (so every op_* theorem and
+   the nested theorems apply to data operands as well). *)
+Theorem data_operand_redispatches_to_same_operator : forall o : opname, redispatch o = o.
+Proof. exact redispatch_id. Qed.
+Theorem data_operand_program_is_element_program :
+  forall (T : Type) (N : Num T) (flg : nat -> bool * bool) (bdtf : nat -> bool) (icast : T -> T)
+         (sp : space) (o : opname) (self wrapped tmp : elem),
+  w_data flg bdtf icast sp o self wrapped tmp = w_elem flg bdtf icast sp o self wrapped tmp.
+Proof. exact @w_data_is_w_elem. Qed.
+
 (* multiply / divide write every entry of out from the operands, whatever out held before --
    at ANY carrier, in particular the poisoned one (old contents None everywhere) *)
 Theorem multiply_ignores_old_out :
